@@ -74,6 +74,10 @@ CHECKS = {
             "Every shape (type tree) over 19 (thorough 25) leaf shapes of the 10 types - empty members, polygons with 0-3 holes - in collections of up to 3 members nested to depth 2, filled with pairwise distinct coordinates, crossed with 6 coordinate functions and fallible functions failing at every position: coords_count, coords_iter, size_hint, exterior_coords_iter, lines_iter, map_coords, map_coords_in_place, try_map_coords (Ok and first-error), try_map_coords_in_place, bounding_rect, extremes - all against the reference traversal produced while building the geometry.",
             "Rect is exempt from the traversal clause, as the property says. try_map_coords_in_place cannot be instantiated on Geometry/GeometryCollection (closure type recursion in the impl) and is exercised on the other nine types. Known finding: Triangle is re-normalised to CCW by map_coords.",
             "DESIGN.md §4 C19"),
+    "C15": ("E1-grid", "bounded exhaustive enumeration of vertex sequences x ratio/distance alphabets vs an arc-length walk reference",
+            "Every vertex sequence of length 1..5 (thorough 6) over the 3x3 lattice with repetition as LineString and every ordered pair (incl. equal points) as Line, crossed with ratios {-1,0,1/8..1,1+ulp,2} and every cumulative vertex ratio: the ratio and distance forms from start and end, the deprecated line_interpolate_point, and line_locate_point (simple lines) must agree with the arc-length walk; densify for LineString/Line/Polygon/Rect/Triangle with maxima from far below the shortest segment to above the total length keeps the vertices in order, inserts only points of the original segments, conserves length and respects the maximum.",
+            "Reference computed in f64 (sqrt), tolerance 1e-12 relative. The deprecated form's documented None on a zero-length line is not compared.",
+            "DESIGN.md §4 C15"),
 }
 
 NOT_YET = "check not built yet in this round (planned: bounded exhaustive exploration, see DESIGN.md §4)"
